@@ -211,3 +211,35 @@ CONTRACTS[PA + 'PauliList.__neg__'] = dict(
     ensures=['same(result.gs, self.gs)', 'len(result.ps) == len(self.ps)', 'forall(j, 0, len(self.ps), result.ps[j] == (self.ps[j] + 2) % 4)'],
     modifies=[], returns=PLIST,
 )
+
+# ------------------------------------------------------------------ C05: rotating a state keeps it valid
+_og, _gg, _NN = 'old(self.gs)', 'generator.g', 'cols(self.gs) // 2'
+CONTRACTS[PA + 'PauliList.rotate_by#state'] = dict(
+    params=[('self', STATE), ('generator', dict(PAULI, exact=False)), ('mask', 'none')], defaults={'mask': None},
+    requires=['cols(self.gs) % 2 == 0', 'inv_state(self.gs, self.ps, self.r, %s)' % _NN, 'len(generator.g) == cols(self.gs)', 'bits1(generator.g)',
+              'generator.p == 0 or generator.p == 2'],
+    ensures=['rows(self.gs) == 2 * (%s)' % _NN, 'cols(self.gs) == 2 * (%s)' % _NN, 'len(self.ps) == 2 * (%s)' % _NN, 'bits2(self.gs)',
+             'gram(self.gs, %s)' % _NN, 'forall(a, self.r, %s, self.ps[a] == 0 or self.ps[a] == 2)' % _NN, 'same_loc(result, self)'],
+    modifies=['self.gs', 'self.ps'], returns='=self',
+    hints={'return': [
+        # conjugation preserves commutation relations: every row is multiplied by G exactly when it anticommutes with G
+        ('assert_from', 'gram(self.gs, %s)' % _NN,
+         ['gram(%s, %s)' % (_og, _NN),
+          'forall(j, 0, rows(self.gs), same(self.gs[j], Xor(%s[j], %s)) if AcqSum(%s, %s[j], %s) %% 2 == 1 else same(self.gs[j], %s[j]))'
+          % (_og, _gg, _gg, _og, _NN, _og),
+          'rows(self.gs) == 2 * (%s)' % _NN,
+          ('forall_lemma', [('i', '0', 'rows(self.gs)'), ('l', '0', 'rows(self.gs)')], 'acq_bilinear', ['%s[i]' % _og, _gg, '%s[l]' % _og, _NN]),
+          ('forall_lemma', [('i', '0', 'rows(self.gs)'), ('l', '0', 'rows(self.gs)')], 'acq_bilinear', ['%s[i]' % _og, _gg, 'Xor(%s[l], %s)' % (_og, _gg), _NN]),
+          ('forall_lemma', [('i', '0', 'rows(self.gs)')], 'acq_bilinear', ['%s[i]' % _og, _gg, _gg, _NN]),
+          ('forall_lemma', [('i', '0', 'rows(self.gs)')], 'acq_antisym', ['%s[i]' % _og, _gg, _NN]),
+          ('lemma', 'acq_antisym', [_gg, _gg, _NN])]),
+        # Hermitian signs: i P G is Hermitian when P and G anticommute (odd power of i from the product, plus the explicit i)
+        ('assert_from', 'forall(a, self.r, %s, self.ps[a] == 0 or self.ps[a] == 2)' % _NN,
+         ['forall(j, 0, rows(self.gs), self.ps[j] == (old(self.ps)[j] + generator.p + 1 + IpowSum(%s[j], %s, %s)) %% 4 '
+          'if AcqSum(%s, %s[j], %s) %% 2 == 1 else self.ps[j] == old(self.ps)[j])' % (_og, _gg, _NN, _gg, _og, _NN),
+          'forall(a, self.r, %s, old(self.ps)[a] == 0 or old(self.ps)[a] == 2)' % _NN, 'generator.p == 0 or generator.p == 2',
+          '0 <= self.r', 'rows(self.gs) == 2 * (%s)' % _NN,
+          ('forall_lemma', [('i', '0', 'rows(self.gs)')], 'ipow_parity', ['%s[i]' % _og, _gg, _NN]),
+          ('forall_lemma', [('i', '0', 'rows(self.gs)')], 'acq_antisym', ['%s[i]' % _og, _gg, _NN])]),
+    ]},
+)
